@@ -28,7 +28,7 @@ REQUIRED_MONITORS = ["matches_documented_rotation", "rotation_invariance", "inve
 REQUIRED_BUCKETS = {"quick": ["jitter:0", "jitter:1", "jitter:2", "jitter:3", "size_pd:0", "size_pd:>=2",
                               "angle:theta0", "angle:theta90", "angle:theta180", "angle:near360", "asymmetric",
                               "symmetric", "lane:asan", "angle_without_loop_slot",
-                              "mesh>100:size-innermost", "jitter:one-point-with-width", "sequence:one-angle-changed", "over-budget:refused"]}
+                              "mesh>100:size-innermost", "jitter:one-point-with-width", "sequence:one-angle-changed", "over-budget:refused", "entry:sasview-shared-disperser-object"]}
 REQUIRED_BUCKETS["thorough"] = REQUIRED_BUCKETS["quick"]
 
 
@@ -186,6 +186,40 @@ def run_oriented(case, rec):
     Iagain = np.asarray(direct_model.call_kernel(kernel, dict(pars)), float)
     rec.check("matches_documented_rotation", bool(np.array_equal(Iagain, I)),
               dict(ctx, note="original request repeated after other view angles", first=I, again=Iagain))
+    # (0b) the SasView-style object given ONE disperser object for two jitter angles (a script that reuses its object),
+    # then different settings for the two: each angle is averaged over its own mesh
+    if k % 6 == 1 and len(angles) >= 2 and not over:
+        from sasmodels import sasview_model, weights as sasweights
+        m_ = sasview_model._make_standard_model(name)()
+        for kk, vv in pars.items():
+            if not kk.endswith(("_pd", "_pd_n", "_pd_nsigma", "_pd_type")):
+                m_.setParam(kk, vv)
+        for p_ in i.parameters.call_parameters:
+            if p_.polydisperse and p_.name + "_pd" in pars and p_.name not in angles:
+                m_.setParam(p_.name + ".width", pars[p_.name + "_pd"])
+                m_.setParam(p_.name + ".npts", pars[p_.name + "_pd_n"])
+                m_.setParam(p_.name + ".nsigmas", pars[p_.name + "_pd_nsigma"])
+                m_.setParam(p_.name + ".type", pars[p_.name + "_pd_type"])
+        shared = sasweights.GaussianDispersion()
+        a1, a2 = angles[0], angles[1]
+        m_.set_dispersion(a1, shared)
+        m_.set_dispersion(a2, shared)
+        w1, n1 = float(rng.uniform(5, 25)), int(rng.integers(3, 6))
+        m_.setParam(a1 + ".width", w1)
+        m_.setParam(a1 + ".npts", n1)
+        m_.setParam(a1 + ".nsigmas", 2.0)
+        m_.setParam(a2 + ".width", 0.0)          # set after, and different from, the first angle's settings
+        m_.setParam(a2 + ".npts", 1)
+        m_.cutoff = 0.0
+        Isv = np.asarray(m_.evalDistribution([qx.copy(), qy.copy()]), float)
+        ps = {kk: vv for kk, vv in pars.items() if not any(kk == a + s_ for a in angles for s_ in ("_pd", "_pd_n", "_pd_nsigma", "_pd_type"))}
+        ps.update({a1 + "_pd": w1, a1 + "_pd_n": n1, a1 + "_pd_nsigma": 2.0, a1 + "_pd_type": "gaussian"})
+        refs, _ = oracle.intensity(direct_model.get_mesh(i, ps, dim="2d"), (qx, qy), "2d", 0.0)
+        oks = core.close(Isv, refs, 1e-8, 1e-10*I0)
+        rec.check("matches_documented_rotation", oks,
+                  None if oks else dict(ctx, entry="SasviewModel, one disperser object handed to set_dispersion for %s and %s, then %s.width=%g, %s.width=0"
+                                        % (a1, a2, a1, w1, a2), observed=Isv, expected=refs, max_rel_err=core.maxrel(Isv, refs, 1e-10*I0)))
+        rec.bucket("entry:sasview-shared-disperser-object")
     # (i) rotate the detector point and phi by the same angle
     delta = float(rng.uniform(-170, 170))
     c, s = math.cos(math.radians(delta)), math.sin(math.radians(delta))
